@@ -52,7 +52,16 @@ impl Callable for Procedure {
             .zip(args.iter().cloned())
             .for_each(|(param, arg)| interpreter.venv.define(Arc::new(param.clone()), arg));
 
+        #[cfg(feature = "verif")]
+        crate::verif::enter_call()?;
         // execute the function
+        #[cfg(feature = "verif")]
+        let __verif_result = interpreter.stmt(&self.body);
+        #[cfg(feature = "verif")]
+        crate::verif::leave_call();
+        #[cfg(feature = "verif")]
+        __verif_result?;
+        #[cfg(not(feature = "verif"))]
         interpreter.stmt(&self.body)?;
 
         let return_value = interpreter.return_value.clone();
